@@ -1,7 +1,7 @@
 SPECIFICATION Spec
 CONSTANTS
   MaxSigs = 4
-  Tools = {"none", "key", "eth", "manual_ok", "manual_bad"}
+  Tools = {"none", "key", "eth", "manual_ok", "manual_bad", "manual_spell"}
 INVARIANT AuthorizedIffK
 INVARIANT EmitB
 CHECK_DEADLOCK FALSE
